@@ -254,6 +254,8 @@ def gen_exprs(n, seed, depth=3):
             "dsqrt(Tgas)", "dlog10(Tgas)*1d-10", "dlog(Tgas)",
             # user arrays indexed by a species index keep their name (only n(idx_X) is the abundance vector)
             "1d-9*user_tab(idx_H)/n(idx_H)", "user_dens(idx_D)+n(idx_D)", "Tgas**user_xi(idx_H)", "user_tab(idx_Hp)*2.0d0", "exp(-user_dens(idx_H)/Tgas)*n(idx_H)", "user_xi(idx_Hm)/user_tab(idx_D)",
+            # a rate that is one bare literal, with more significant digits than a short float format keeps
+            "1.0670825d-10", "102124.5d0", "1234567.d0", "3.14159265358979d0", "6.02214076d23", "1.0000001", "9.99999999e-1*1",
             # a power as the right operand of a division (and of a subtraction): it stays one unit
             "2.0d-9/(T32)**(-5.000e-01)", "user_a/Tgas**(-0.5)", "Tgas/invT**0.5", "user_a/Tgas**(-0.5d0)/T32", "1d0/Tgas**2/T32**(-0.5)", "Tgas-T32**(-0.5)", "1d-9/sqrTgas**(-1)", "2.5d0/Tgas**0.5d0*invT", "Tgas/T32**(-2)**1",
             # literals whose exponent is separated from the mantissa (fixed-form spelling) or doubled: reject, or keep the value
